@@ -759,25 +759,11 @@ fn gen_bind(rng: &mut Rng, k: &'static str) -> Value {
     let mut order: Vec<usize> = (0..n).collect();
     rng.shuffle(&mut order);
     if k == "lil" {
-        let mut fixed: Vec<usize> = vec![];
-        for &i in &order {
-            if tasks[i].2 > 0 || fixed.contains(&(i - 1)) {
-                fixed.push(i);
-                if tasks[i].2 > 0 && order.iter().position(|x| *x == i + 1) < order.iter().position(|x| *x == i) {
-                    // its delivery came earlier in the shuffle: place it right after, sometimes later
-                }
-            }
-        }
-        for &i in &order {
-            if !fixed.contains(&i) {
-                fixed.push(i);
-            }
-        }
-        // make sure of the precedence
+        // a delivery (odd index, its pickup is the index before) is moved right behind its pickup if it came first
         let mut seen = HashSet::new();
         let mut out = vec![];
-        let mut waiting = vec![];
-        for &i in &fixed {
+        let mut waiting: Vec<usize> = vec![];
+        for &i in &order {
             if tasks[i].2 > 0 {
                 seen.insert(i);
                 out.push(i);
